@@ -89,13 +89,18 @@ type run struct {
 
 func (x *run) ms() int { return int(time.Since(x.genesis) / time.Millisecond) }
 
-func (x *run) emit(ev drv.Step) {
+// emit records one event; `now` (state that other goroutines change) is read inside the critical section, so that it
+// is consistent with the position of the event in the trace.
+func (x *run) emit(ev drv.Step, now ...func(drv.Step)) {
 	x.mu.Lock()
 	defer x.mu.Unlock()
 	if x.ended {
 		return
 	}
 	ev["t"] = x.ms()
+	for _, f := range now {
+		f(ev)
+	}
 	x.tr.Emit(ev)
 }
 
@@ -184,7 +189,7 @@ func (x *run) hook(kind string, id int, s script) lifecycle.IHookFunc {
 			}
 			tm.Stop()
 		}
-		x.emit(drv.Step{"ev": "Exit", "kind": kind, "id": id, "res": res, "cerr": ctxErr(ctx)})
+		x.emit(drv.Step{"ev": "Exit", "kind": kind, "id": id, "res": res}, func(ev drv.Step) { ev["cerr"] = ctxErr(ctx) })
 		switch res {
 		case "err":
 			return &hookErr{kind, id}
